@@ -7,7 +7,8 @@
    names; a thread that is not enabled is skipped). *)
 From Coq Require Import List Arith ZArith Bool.
 From Verif Require Import lib.Wire c15.Lts c15.Model c15.Spec c15.Proofs c15.Proofs_Chan c15.Proofs_Loc
-  c15.Proofs_List c15.Proofs_Safe c15.Proofs_Init c15.Proofs_Once c15.Proofs_Thm.
+  c15.Proofs_List c15.Proofs_Safe c15.Proofs_Init c15.Proofs_Once c15.Proofs_Thm c15.Proofs_Grow
+  c15.Proofs_First c15.Proofs_Wild.
 Import ListNotations.
 
 (* the checked tie: a label trace accepted by conform_case's search is the
@@ -97,3 +98,45 @@ Theorem c15_node_lock_mutual_exclusion : forall st sched n t1 t2, initial st ->
   in_region (run step st sched) n t1 -> in_region (run step st sched) n t2 -> t1 = t2.
 Proof. exact mutual_exclusion_l. Qed.
 Print Assumptions c15_node_lock_mutual_exclusion.
+
+(* order in a channel = order of sending: histories, promise lists and received
+   lists are only ever extended at the end (any schedule, any continuation) *)
+Theorem c15_history_append_only : forall st sched more s c,
+  nth_error (subs (run step st sched)) s = Some c ->
+  exists c', nth_error (subs (run step st (sched ++ more))) s = Some c' /\
+    (exists h, hist c' = hist c ++ h) /\ (exists e, expd c' = expd c ++ e) /\ (exists r, recv c' = recv c ++ r).
+Proof. exact history_append_only_l. Qed.
+Print Assumptions c15_history_append_only.
+
+(* before a typed subscription has joined node n nothing of n is promised to it *)
+Theorem c15_nothing_before_join : forall st sched s c n, initial st ->
+  nth_error (subs (run step st sched)) s = Some c -> styps c <> None -> ~ In n (snodes c) ->
+  proj n (expd c) = [].
+Proof. exact nothing_before_join_l. Qed.
+Print Assumptions c15_nothing_before_join.
+
+(* stateful replay first: the step that appends s to n.sinks promises s exactly
+   the retained event of n (most recent earlier event of a stateful type, if
+   any) and hands n.lk to the replay goroutine, so no Emit on n can be promised
+   to s before it; if s had not joined n before, it is the first n-item *)
+Theorem c15_stateful_replay_first : forall st sched s c i tys ty, initial st ->
+  let st1 := run step st sched in
+  nth_error (subs st1) s = Some c -> spc c = SApp i -> styps c = Some tys -> nth_error tys i = Some ty ->
+  let n := snd (lookup st1 ty) in
+  forall nd, nth_error (nodes (fst (lookup st1 ty))) n = Some nd -> holder nd = None ->
+  exists st2 c2 nd2, step st1 (TSub s) = Some (None, st2) /\
+    nth_error (subs st2) s = Some c2 /\ nth_error (nodes st2) n = Some nd2 /\
+    holder nd2 = Some (TReplay s i) /\ sinks nd2 = sinks nd ++ [s] /\
+    hist c2 = hist c /\ expd c2 = expd c ++ retained nd n /\
+    (~ In n (snodes c) -> proj n (expd c2) = retained nd n).
+Proof. exact stateful_replay_first_l. Qed.
+Print Assumptions c15_stateful_replay_first.
+
+(* wildcard subscriptions, same rules: per Emit call k, what k sent to the
+   wildcard subscription s followed by what k still owes it under the read lock
+   is exactly what s was promised when k took the read lock *)
+Theorem c15_wildcard_same_rules : forall st sched s c k, initial st ->
+  nth_error (subs (run step st sched)) s = Some c -> styps c = None ->
+  proj k (hist c) ++ pendw (run step st sched) k s = proj k (expd c).
+Proof. exact wildcard_same_rules_l. Qed.
+Print Assumptions c15_wildcard_same_rules.
